@@ -1,9 +1,10 @@
 (* Correspondence entry point for C20.
    case = VTup (VInt kind :: args):
-     0 "res"     [VStr cwd; VList [VStr relative file ...]; VStr all_expr]
+     0 "res"     [VStr cwd; VList [VStr relative file ...]; VList [VStr text of that file ...];
+                  VList [VInt attribute ...] (ignored: the resolution must not depend on them); VStr all_expr]
                  -> VTup [sorted File.resolve_filenames; textFile(...).collect(); file names in the order
                           wholeTextFiles delivers them; the same for binaryFiles]   (or VErr each)
-                    (every file's content is its absolute path)
+                    (collect() = the lines of the resolved files, in reading order)
      1 "fnm"     [VStr pattern]  -> VInt bit mask of fnmatch(name, pattern) over all names of length <= 5
                                     over the alphabet 'a' '.' '/' (by length, then lexicographically)
      2 "dirname" [VStr s] -> VStr (posixpath.dirname)
@@ -29,11 +30,28 @@ Definition mk_fs (cwd_s : list N) (rels : list (list N)) : fsys :=
 
 Definition enc_names (l : list (list N)) : val := VList (map VStr l).
 
-Definition run_res (fs : fsys) (e : list N) : val :=
-  if negb (wf_fs fs) then VBad else
+(* str.splitlines for texts whose only line break is \n *)
+Definition splitlines (t : list N) : list (list N) :=
+  match t with
+  | [] => []
+  | _ => let l := split_on 10%N t in
+         match last l [1%N] with [] => removelast l | _ => l end
+  end.
+
+Fixpoint text_of (f : list (list N)) (tbl : list (list (list N) * list N)) : list N :=
+  match tbl with
+  | [] => []
+  | (g, t) :: tbl' => if comps_eqb f g then t else text_of f tbl'
+  end.
+
+Definition run_res (fs : fsys) (texts : list (list N)) (e : list N) : val :=
+  if negb (wf_fs fs) || negb (Nat.eqb (List.length texts) (List.length (files fs))) then VBad else
   match read_order fs e with
   | Fail m => VTup [VErr m; VErr m; VErr m; VErr m]
-  | Names l => VTup [enc_names l; enc_names (map (abs_path fs) l); enc_names l; enc_names l]
+  | Names l =>
+      let tbl := combine (files fs) texts in
+      VTup [enc_names l; enc_names (flat_map (fun s => splitlines (text_of (denote fs s) tbl)) l);
+            enc_names l; enc_names l]
   end.
 
 Fixpoint words (alpha : list N) (n : nat) : list (list N) :=
@@ -52,10 +70,10 @@ Fixpoint mask (l : list bool) : Z :=
 
 Definition run (c : val) : val :=
   match c with
-  | VTup [VInt 0; VStr cwd_s; VList fl; VStr e] =>
-      match all_strs fl with
-      | Some rels => run_res (mk_fs cwd_s rels) e
-      | None => VBad
+  | VTup [VInt 0; VStr cwd_s; VList fl; VList cl; VList _; VStr e] =>
+      match all_strs fl, all_strs cl with
+      | Some rels, Some texts => run_res (mk_fs cwd_s rels) texts e
+      | _, _ => VBad
       end
   | VTup [VInt 1; VStr p] => VInt (mask (map (gmatch p) fnm_names))
   | VTup [VInt 2; VStr s] => VStr (dirname s)
